@@ -484,6 +484,20 @@ let op_ready g x p =
     then Some (set_oready p (upd p.p_oready x true))
     else None
 
+(** val op_ready_try : graph -> nat -> plan -> plan **)
+
+let op_ready_try g x p =
+  match op_ready g x p with
+  | Some p' -> p'
+  | None -> p
+
+(** val ready_pre : graph -> plan -> nat -> bool **)
+
+let ready_pre g p x =
+  match p.p_want x with
+  | Some _ -> false
+  | None -> (&&) (Nat.ltb x (n_edges g)) (negb (p.p_oready x))
+
 (** val op_rescan : graph -> nat -> plan -> plan **)
 
 let op_rescan g x p =
@@ -497,6 +511,12 @@ let op_rescan g x p =
        else p
      | _ -> p)
   | None -> p
+
+(** val rescan_round : graph -> nat list -> nat list -> plan -> plan **)
+
+let rescan_round g deps rd p =
+  fold_left (fun a x -> op_rescan g x a) deps
+    (fold_left (fun a x -> op_ready_try g x a) rd p)
 
 (** val op_add : graph -> (nat * bool) -> plan -> plan option **)
 
@@ -636,23 +656,24 @@ let apply_load_gen strict g loads e p =
        let deps = dependents g p1 e in
        (match fold_opt (op_dirty g deps) l0.ld_dirty p1 with
         | Some p2 ->
-          (match fold_opt (op_ready g) l0.ld_ready p2 with
-           | Some p3 ->
-             let p4 =
-               Nat.iter (n_edges g) (fun pp ->
-                 fold_left (fun a x -> op_rescan g x a) deps pp) p3
-             in
-             (match fold_opt (op_add g) l0.ld_added p4 with
-              | Some p5 ->
-                if (&&)
-                     ((&&)
-                       ((&&) ((&&) (chk_evol g l0 p p5) (chk_closed g p5))
-                         (chk_sched g p5)) (chk_oclosed g p5))
-                     ((||) (negb strict) (chk_walk g p p5 l0.ld_walk))
-                then Ok (p5, l0.ld_walk)
-                else Forbidden
-              | None -> Forbidden)
-           | None -> Forbidden)
+          if forallb (ready_pre g p2) l0.ld_ready
+          then let p4 =
+                 Nat.iter (n_edges g) (rescan_round g deps l0.ld_ready) p2
+               in
+               if forallb p4.p_oready l0.ld_ready
+               then (match fold_opt (op_add g) l0.ld_added p4 with
+                     | Some p5 ->
+                       if (&&)
+                            ((&&)
+                              ((&&)
+                                ((&&) (chk_evol g l0 p p5) (chk_closed g p5))
+                                (chk_sched g p5)) (chk_oclosed g p5))
+                            ((||) (negb strict) (chk_walk g p p5 l0.ld_walk))
+                       then Ok (p5, l0.ld_walk)
+                       else Forbidden
+                     | None -> Forbidden)
+               else Forbidden
+          else Forbidden
         | None -> Forbidden)
      | None -> Forbidden)
 
